@@ -169,7 +169,7 @@ pub fn def(ctx: &Ctx) -> PropertyDef {
         scenarios.push(program_scenario(p, oracle(gone, reput), move |_c| IlvCfg {
             bounds: if quick { if three { vec![0, 1] } else { vec![0, 1, 2] } } else { vec![0, 1, 2, 3] },
             workers,
-            split_depth: 5,
+            split_depth: 6,
             time_cap_s: Some(if quick { 8.0 } else { 300.0 }),
             max_executions: None,
         }));
